@@ -21,6 +21,10 @@ CLAIMED = {
          "List lengths bounded (quick 3x3, thorough 4x5); amounts unbounded."),
  "C08": ("§6 C08", "save followed by sends (and interleavings) through the public API: flows equal the reference in which save lowers the visible balance to max(0, b-n) (never raising a negative balance); negative saves are rejected.",
          "<=2 saves and <=2 sends; numbers unbounded."),
+ "C09": ("§6 C09", "For every 2-3 statement script of the family the harness runs the whole script and each statement alone on the balances left by the previous ones (postings actually returned + the save rule), all on symbolic balances; the solver shows the postings are element-wise identical, failures coincide in class, and metadata merges key-wise with last write winning.",
+         "13 statement kinds, scripts of 2-3 statements; numbers unbounded; variables do not read balances."),
+ "C10": ("§6 C10", "Each script (balance()/overdraft()/meta() origins, saves, account variables, two assets) is run against four harness stores (exact, sparse, superset, static) over one symbolic truth table inside a single symbolic path; results are asserted pairwise identical for every table, and the exact store asserts that @world is never requested.",
+         "23 (quick) / 31 (thorough) templates; <=4 accounts x 2 assets; stores returning nil maps are outside."),
 }
 
 NA = {}
